@@ -35,7 +35,7 @@ prop("C14",
                        ("MC_Schema", "Gen_Schema_conf.cfg")],
      driver=lambda tier, seed, gen, out: ["schema", "-gen", gen, "-out", out, "-seed", str(seed)] +
      _t(tier, ["-sample", "400", "-walks", "100", "-depth", "40"],
-        ["-sample", "6000", "-walks", "2000", "-depth", "60", "-lit"]),
+        ["-sample", "4000", "-walks", "2000", "-depth", "60", "-lit"]),
      trace=("Trace_Schema", "Trace_Schema.cfg"),
      required=["AddType:ok", "AddType:err", "RemoveType:ok", "AddAttr:ok", "AddAttr:err", "AddRel:ok", "AddRel:err",
                "AddTwoWayRel:ok", "AddTwoWayRel:err", "RemoveAttr:ok", "RemoveRel:ok", "Check:ok", "names:0", "names:1"],
